@@ -1,0 +1,11 @@
+//go:build !verif
+
+// Package verifhook holds notification points used by the external verification harness.
+// Without the `verif` build tag every function is an empty, inlinable no-op.
+package verifhook
+
+// TreeOp is called for each tree.Remove (set=false) / tree.Set (set=true) of a ledger commit.
+func TreeOp(ledger string, set bool, key []byte) {}
+
+// DurableWrite is called right after a durable write of the commit sequence completed.
+func DurableWrite(store string) {}
